@@ -208,7 +208,7 @@ def fcOutEventsOk (f : FC) : Bool :=
 /-! ### C15 on the *input*: documents that must be refused
 
 What the JSON document says, read without the parser: an event written with direction "out" whose signature lists a
-formal written with direction "out", in the events of an interface that is an element of the root or of (nested)
+formal written with direction "out" or whose written reply type is not the single id `void`, in the events of an interface that is an element of the root or of (nested)
 namespaces.  No outcome of parsing such a document is a success — whatever else the document contains. -/
 
 def jDirIsOut (kvs : List (Str × JVal)) : Bool :=
@@ -231,8 +231,21 @@ def jFormalsOf (kvs : List (Str × JVal)) : List JVal :=
     | _ => []
   | _ => []
 
+/-- the written reply type is something other than the single id `void` -/
+def jReplyNotVoid (kvs : List (Str × JVal)) : Bool :=
+  match JVal.lookup (L "signature") kvs with
+  | some (.obj sg) =>
+    match JVal.lookup (L "type_name") sg with
+    | some (.obj tn) =>
+      match JVal.lookup (L "ids") tn with
+      | some (.arr [.str s]) => s != L "void"
+      | some (.arr _) => true
+      | _ => false
+    | _ => false
+  | _ => false
+
 def jBadEvent : JVal → Bool
-  | .obj kvs => jDirIsOut kvs && (jFormalsOf kvs).any jFormalIsOut
+  | .obj kvs => jDirIsOut kvs && ((jFormalsOf kvs).any jFormalIsOut || jReplyNotVoid kvs)
   | _ => false
 
 def jEventsOf (kvs : List (Str × JVal)) : List JVal :=
